@@ -649,3 +649,95 @@ _run_c10b = run
 def run(ctx, R):
     _run_c10b(ctx, R)
     r108(ctx, R)
+
+
+WRAPPERS = (
+    'placement.wsgi_wrapper:PlacementWsgify.call_func',
+    'placement.handler:dispatch',
+    'placement.handler:PlacementHandler.__call__',
+    'placement.util:check_accept>decorator>decorated_function',
+    'placement.util:require_content>decorator>decorated_function',
+    'placement.microversion:version_handler>decorator>decorated_func',
+)
+
+
+def _is_delegate(ctx, w, c):
+    """The call by which a wrapper of the handlers runs what it wraps."""
+    fn = c.func
+    if isinstance(fn, ast.Call):
+        return True                     # _find_method(...)(req, ...)
+    if isinstance(fn, ast.Attribute) and isinstance(
+            fn.value, ast.Call) and src(fn.value.func) == 'super':
+        return True
+    s = ctx.cg.site_of.get(c)
+    if s is not None and any(g.qbase in WRAPPERS for g in s.callees):
+        return True
+    if isinstance(fn, ast.Name):
+        anc = w.parent
+        while anc is not None:
+            if fn.id in anc.params:
+                return True             # the decorated function
+            anc = anc.parent
+        if fn.id not in w.params and fn.id in model.local_names(w) and \
+                w.params and c.args and isinstance(
+                    c.args[0], ast.Name) and c.args[0].id == w.params[0] \
+                and (s is None or not s.callees):
+            # a callable looked up at run time and handed the request: the
+            # routed WSGI application, the method of the microversion
+            return True
+    return False
+
+
+def r109(ctx, R):
+    """An error answered after the handler has returned is an error
+    answered after its transaction committed: in every wrapper between the
+    WSGI entry and a handler, nothing that can refuse the request runs once
+    the wrapped call has come back."""
+    from psa.rules import c04
+    prog = ctx.prog
+    n = 0
+    for q in WRAPPERS:
+        for w in prog.funcs_named(q):
+            dl = [s.node for s in ctx.cg.calls_in(w)
+                  if _is_delegate(ctx, w, s.node)]
+            # calls the call graph does not resolve are not in calls_in
+            dl += [c for c in own_nodes(w.node) if isinstance(c, ast.Call)
+                   and c not in dl and _is_delegate(ctx, w, c)]
+            n += 1
+            if not R.ob('R10.9', '%s:wrapped-call' % w.qname, len(dl) == 1,
+                        'one call runs the wrapped handler', '%d' % len(dl),
+                        func=w, nontrivial=False):
+                continue
+            g = cfgmod.cfg_of(w)
+            st = C.stmt_of(dl[0])
+            after = g.reachable_from([st], normal_only=True) - {st}
+            bad = []
+            for r in C.raise_stmts(w):
+                if (r in after or c04._inside(r, after)) and not \
+                        c04._in_except_handler(r, w.node):
+                    bad.append('raise at line %d' % r.lineno)
+            for s in ctx.cg.calls_in(w):
+                cs = C.stmt_of(s.node)
+                if s.node is dl[0] or not (
+                        cs in after or c04._inside(cs, after)) or \
+                        c04._in_except_handler(s.node, w.node):
+                    continue
+                exc = {x for x in ctx.raises.call_raises(w, s.node)
+                       if x.startswith('webob.exc.')
+                       or x.startswith('placement.exception.')}
+                if exc:
+                    bad.append('%s may raise %s' % (
+                        src(s.node)[:40], sorted(exc)[:2]))
+            R.ob('R10.9', '%s:nothing-refuses-afterwards' % w.qname,
+                 not bad, 'after the wrapped call returns nothing raises '
+                 'an HTTP error (the write is committed by then)',
+                 bad[:3] or 'nothing', func=w, node=dl[0])
+    R.count('R10.9', n, 6)
+
+
+_run_c10c = run
+
+
+def run(ctx, R):
+    _run_c10c(ctx, R)
+    r109(ctx, R)
